@@ -52,20 +52,21 @@ Choose == /\ net.k = 0
           /\ \E np \in 3..5, place \in Places, extra \in ExtraSets, status \in Patterns, cov \in 0..2 :
                /\ \A e \in extra : Edges[e][1] <= np /\ Edges[e][2] <= np
                /\ ((np * 7 + Len(place) * 3 + Cardinality(extra) * 11 + cov * 5 + Len(status) * 19 + Seed) % Keep = 0)
-               /\ \E noise \in 0..2, perm \in 0..3, ds \in 1..3, hs \in 1..3, dh \in 1..2, displ \in 0..1, zs \in 1..2, as \in 1..3, xs \in 1..3 :
+               /\ \E noise \in 0..2, perm \in 0..3, ds \in 1..3, hs \in 1..3, dh \in 1..2, displ \in 0..1, zs \in 1..2, as \in 1..3, xs \in 1..3, idh \in 0..1 :
                     /\ (status = "xyzdatum" <=> xs > 1)
                     /\ (status = "hfix" => hs > 1)                  \* without observed heights the translation along the vertical stays free
                     /\ (status = "constr" => displ = 0 /\ hs = 1 /\ dh = 1 /\ zs = 1 /\ as = 1)
                          \* the datum of a constrained network is its given coordinates; ellipsoidal heights, height differences and
                          \* angles referred to the local vertical depend (weakly) on the position and would change the defect
-                    /\ ((noise * 13 + perm * 17 + ds * 23 + hs * 29 + dh * 31 + displ * 37 + zs * 41 + as * 43 + xs * 53 + np + cov + Seed) % Keep2 = 0)
+                    /\ ((noise * 13 + perm * 17 + ds * 23 + hs * 29 + dh * 31 + displ * 37 + zs * 41 + as * 43 + xs * 53 + idh * 59 + np + cov + Seed) % Keep2 = 0)
+                    /\ (idh = 1 => ds > 1 \/ zs > 1)             \* instrument and target heights on distances and zenith angles
                     /\ net' = [k |-> 1, np |-> np, place |-> place,
                                vectors |-> [i \in 1..(np - 1) |-> Edges[i]] \o
                                            [i \in 1..Cardinality(extra) |-> Edges[CHOOSE e \in extra : Cardinality({x \in extra : x < e}) = i - 1]],
                                dists |-> DistSets[ds], heights |-> HeightSets[hs], hdiffs |-> HdiffSets[dh],
                                zeniths |-> ZenSets[zs], angles |-> AngSets[as], xyzobs |-> XyzSets[xs],
                                status |-> status, pstat |-> [i \in 1..np |-> Status(status, i)], displ |-> displ,
-                               cov |-> cov, noise |-> noise, perm |-> perm,
+                               cov |-> cov, noise |-> noise, perm |-> perm, idh |-> idh,
                                offsets |-> [i \in 1..np |-> Pts[i]],
                                parameters |-> NonFixed(status, np),
                                equations |-> 3 * ((np - 1) + Cardinality(extra)) + Len(DistSets[ds]) + Len(HeightSets[hs]) + Len(HdiffSets[dh])
